@@ -141,14 +141,14 @@ def check(repo, rep):
             after = [e for e in post if l.effects.index(e) > idx_exit]
             rep.ob('F3: after the stop marker the worker runs its post-processing hook once and terminates', len(after) == 1, where, 'Worker.run[STOP]:post-process', 'calls after the loop: %s' % [show(e[1])[:40] for e in after],
                    sample=dict(message='STOP', trace=['get', 'leave loop'] + [show(e[1]) for e in after]))
-        elif notstop and notnone:
+        elif notnone and (notstop or not any(ct[0] == 'cmp' and ct[2] == msg and pr.isstop(ct[3]) for ct, tr, _ in l.conds)) and not isnone:
             kinds['data'] += 1
             ok = len(proc) == 1 and l.outcome == 'loop-back'
             rep.ob('F3: a data message is processed exactly once and the loop continues', ok, where, 'Worker.run[DATA]', 'process calls %s, outcome %s' % ([show(p[1])[:50] for p in proc], l.outcome),
                    sample=dict(message='DATA', trace=['get'] + [show(p[1])[:50] for p in proc] + ['continue']))
             if len(proc) == 1:
                 hook = proc[0][1][1][2]
-        elif notstop and isnone:
+        elif isnone and not isstop:
             kinds['none'] += 1
             ok = not proc and l.outcome == 'loop-back'
             rep.ob('F3: a queue timeout (None) neither processes nor ends the loop -- the worker keeps waiting', ok, where, 'Worker.run[NONE]', 'process calls %s, outcome %s' % ([show(p[1])[:50] for p in proc], l.outcome),
@@ -156,6 +156,8 @@ def check(repo, rep):
         else:
             rep.unknown('Worker.run: path not classified: %s' % [(show(c[0])[:50], c[1]) for c in l.conds])
     for k, n in kinds.items():
+        if n == 0 and rep.inconclusive:
+            continue            # an unclassified path may be that case: already INCONCLUSIVE
         rep.ob('F3: the worker loop has a %s case' % k, n >= 1, cx.where(run[0], run[2]), 'Worker.run:missing-%s-case' % k)
     # ---------------------------------------------------------------- F5 tokenizer worker
     tk = pr.tok
@@ -227,8 +229,13 @@ def check(repo, rep):
                         fields = ntn.args[1].value.replace(',', ' ').split()
                 want = dict(id=idt, start=('attr', ('attr', reg, 'meta'), 'start'), end=('attr', ('attr', reg, 'meta'), 'end'), duration=('attr', reg, 'duration'))
                 alt = dict(start=('attr', reg, 'start'), end=('attr', reg, 'end'))
-                if fields and dv[0] == 'call' and len(dv[2]) == len(fields):
-                    for fnm, a in zip(fields, dv[2]):
+                if fields and dv[0] == 'call' and len(dv[2]) + len(dv[3]) == len(fields) and all(k in fields for k, _ in dv[3]):
+                    byname = dict(zip(fields, dv[2]))
+                    byname.update(dict(dv[3]))
+                    for fnm in fields:
+                        a = byname.get(fnm)
+                        if a is None:
+                            continue
                         okf = fnm in want and (a == want[fnm] or a == alt.get(fnm))
                         rep.ob('F5: detection record field %s is filled from the region\'s %s' % (fnm, fnm), okf, where, 'TokenizerWorker.run:detection-%s' % fnm, '%s = %s' % (fnm, show(a)[:60]))
                 else:
